@@ -1088,6 +1088,33 @@ func (r *runner) exec(o op) {
 
 // ------------------------------------------------------------------------------------------ generation
 
+// repeatSome names some of the requested ids more than once (the API only checks the number of ids and
+// their syntax): next to each other, far apart, three times, the whole request twice. For updates the
+// repeated entry carries another payload (the last one wins).
+func repeatSome[T any](rng *vh.Rng, xs []T, again func(T) T) []T {
+	if len(xs) == 0 {
+		return xs
+	}
+	switch rng.Intn(5) {
+	case 0: // right behind the original
+		i := rng.Intn(len(xs))
+		xs = append(xs[:i+1], append([]T{again(xs[i])}, xs[i+1:]...)...)
+	case 1: // first at the end
+		xs = append(xs, again(xs[0]))
+	case 2: // last at the front
+		xs = append([]T{again(xs[len(xs)-1])}, xs...)
+	case 3: // three times
+		i := rng.Intn(len(xs))
+		xs = append(append([]T{again(xs[i])}, xs...), again(xs[i]))
+	default: // everything twice
+		n := len(xs)
+		for i := 0; i < n; i++ {
+			xs = append(xs, again(xs[i]))
+		}
+	}
+	return xs
+}
+
 func genScenario(rng *vh.Rng, big bool) []op {
 	servers := 1 + rng.Intn(3)
 	maxShard := vh.Pick(rng, []int{2, 3, 4, 6})
@@ -1180,14 +1207,17 @@ func genScenario(rng *vh.Rng, big bool) []op {
 			for j := 0; j < 1+rng.Intn(4); j++ {
 				o.pts = append(o.pts, [2]int64{int64(pickId()), int64(rng.Intn(2001)) - 1000})
 			}
+			if rng.Chance(20) {
+				o.pts = repeatSome(rng, o.pts, func(p [2]int64) [2]int64 { return [2]int64{p[0], int64(rng.Intn(2001)) - 1000} })
+			}
 			ops = append(ops, o)
 		case w < 58:
 			o := op{kind: "delete", entry: entry()}
 			for j := 0; j < 1+rng.Intn(3); j++ {
 				o.ids = append(o.ids, pickId())
 			}
-			if rng.Chance(15) {
-				o.ids = append(o.ids, o.ids[0])
+			if rng.Chance(20) {
+				o.ids = repeatSome(rng, o.ids, func(i int) int { return i })
 			}
 			ops = append(ops, o)
 		case w < 64:
@@ -1198,6 +1228,23 @@ func genScenario(rng *vh.Rng, big bool) []op {
 	}
 	ops = append(ops, op{kind: "state"})
 	return ops
+}
+
+func repeatedIdCorpus() []op {
+	return []op{
+		{kind: "newcluster", servers: 2, maxShard: 2, maxLi: 75, useed: 11},
+		{kind: "insert", entry: 0, pts: [][2]int64{{1, 10}, {2, 20}, {3, 30}, {4, 40}, {5, 50}, {6, 60}, {7, 70}}},
+		{kind: "state"},
+		{kind: "delete", entry: 1, ids: []int{1, 1}},
+		{kind: "delete", entry: 0, ids: []int{99, 2, 98, 2, 99}},
+		{kind: "update", entry: 1, pts: [][2]int64{{3, 31}, {3, 32}}},
+		{kind: "update", entry: 0, pts: [][2]int64{{4, 41}, {97, 1}, {4, 42}, {97, 2}, {5, 51}}},
+		{kind: "state"},
+		{kind: "stop", server: 1},
+		{kind: "delete", entry: 0, ids: []int{5, 5, 96, 6, 96}},
+		{kind: "update", entry: 0, pts: [][2]int64{{7, 71}, {7, 72}, {95, 1}, {95, 2}}},
+		{kind: "state"},
+	}
 }
 
 func main() {
@@ -1246,6 +1293,11 @@ func main() {
 		cfgs[k] += v
 	}
 	r.lines = nil
+	// corpus: ids named more than once in one request (stored / unknown, next to each other / apart),
+	// on two servers and several shards, all up and with one server stopped
+	for _, p := range repeatedIdCorpus() {
+		r.exec(p)
+	}
 	for i := 0; i < *n+*nbig; i++ {
 		ops := genScenario(rng, i >= *n)
 		for _, p := range ops {
